@@ -199,6 +199,12 @@ func drawEmbeddingIndex(t *rapid.T, cmds []database.Command) *embedding.Index {
 			idx.WordVectors[w] = rapid.SliceOfN(comp, dim, dim).Draw(t, "wv")
 		}
 	}
+	switch rapid.IntRange(0, 9).Draw(t, "emb-mode") {
+	case 0:
+		idx.WordVectors = map[string][]float32{} // glove.bin without a single known word: no query has an embedding
+	case 1:
+		return idx // word vectors only (cmd_embeddings.bin missing): nothing to compare with
+	}
 	n := len(cmds)
 	if rapid.IntRange(0, 4).Draw(t, "fewer-emb") == 0 {
 		n = rapid.IntRange(0, len(cmds)).Draw(t, "n-emb")
@@ -211,4 +217,16 @@ func drawEmbeddingIndex(t *rapid.T, cmds []database.Command) *embedding.Index {
 		}
 	}
 	return idx
+}
+
+// cloneEmbeddingIndex returns an independent deep copy of idx.
+func cloneEmbeddingIndex(idx *embedding.Index) *embedding.Index {
+	x := &embedding.Index{Dimension: idx.Dimension, WordVectors: map[string][]float32{}}
+	for k, v := range idx.WordVectors {
+		x.WordVectors[k] = append([]float32(nil), v...)
+	}
+	for _, v := range idx.CmdEmbeddings {
+		x.CmdEmbeddings = append(x.CmdEmbeddings, append([]float32(nil), v...))
+	}
+	return x
 }
